@@ -85,6 +85,7 @@ func (b *loopBatch) handle(q []byte, proto string, connID int, reply func([]byte
 		return
 	}
 	b.arr++
+	cl.sawWire(qi.WireID)
 	it := &litem{qi: qi, cl: cl, reply: reply, conn: connID, arrive: b.arr}
 	if b.since.IsZero() {
 		b.since = time.Now()
@@ -148,7 +149,22 @@ func (b *loopBatch) flush(force bool) {
 			name := fmt.Sprintf("stray%d.c01.test.", b.strayN)
 			qs := append(wire.EncodeName(name), 0, 16, 0, 1)
 			tok := fmt.Sprintf("stray/%s/%d", b.cfg.Proto, b.strayN)
-			msg := dnsadv.Reply(it.qi.WireID+0x4000+uint16(b.rng.Intn(0x4000)), 0x8180, qs, tok, b.rng.Intn(64), 0)
+			sid := it.qi.WireID + 0x4000 + uint16(b.rng.Intn(0x4000))
+			for try := 0; try < 64; try++ {
+				busy := false
+				for _, o := range batch {
+					busy = busy || o.qi.WireID == sid
+				}
+				for _, o := range b.late {
+					busy = busy || o.qi.WireID == sid
+				}
+				if !busy {
+					break
+				}
+				sid += 0x0101
+			}
+			strayIDs.Store(tok, sid)
+			msg := dnsadv.Reply(sid, 0x8180, qs, tok, b.rng.Intn(64), 0)
 			b.reps[tok] = msg
 			it.reply(msg)
 			b.noise = true
@@ -202,6 +218,9 @@ func (b *loopBatch) check(cl *call, r *[]byte) {
 		return
 	}
 	if strings.HasPrefix(ri.Token, "stray/") {
+		if strayCollided(cl, ri.Token) {
+			return
+		}
 		rep.Violation("stray-delivered-"+tname, "a reply whose wire ID matched no outstanding query was delivered (token "+ri.Token+")", wit)
 		return
 	}
